@@ -746,13 +746,28 @@ fn main() {
 				expect_reject(&mut out, &format!("c01 tx same-commitment-twice {} case={} validate", form, n), &verdict_tx(&t), &mut bad);
 				let v = if form == "commit-only" { 3 } else { 2 };
 				expect_reject(&mut out, &format!("c01 tx same-commitment-twice {} case={} wire-v{}", form, n, v), &wire_tx(&t, v), &mut bad);
-				// the same body as a block
+				// the same body as a block (headers are made under the chain type they are hashed under)
+				global::set_local_chain_type(ChainTypes::AutomatedTesting);
 				let prev = grin_core::core::BlockHeader::default();
 				let rw = reward::output(&kc, &pb, &key(9, n), fee as u64, false).unwrap();
 				// the block is assembled around the transaction with its inputs still de-duplicated,
 				// then given the repeated input
-				if let Ok(mut b) = Block::new(&prev, &[base.clone()], Difficulty::min_dma(), rw) {
-					let honest_wire = wire_block(&b, v);
+				// a header that passes the untrusted reader: AutomatedTesting parameters (version for
+				// height 1, small graphs) and a REAL proof of work found by the repo's own miner; the
+				// proof covers the header, not the body, so the body can be changed afterwards
+				let built = Block::new(&prev, &[base.clone()], Difficulty::min_dma(), rw).ok().and_then(|mut b| {
+					grin_core::pow::pow_size(&mut b.header, Difficulty::min_dma(), global::proofsize(), global::min_edge_bits()).ok().map(|_| b)
+				});
+				if let Some(mut b) = built {
+					// the block before the change, its single input in the form under test
+					let honest = {
+						let mut h = b.clone();
+						if form != "commit-only" {
+							h.body.inputs = Inputs::FeaturesAndCommit(vec![Input { features: OutputFeatures::Plain, commit }]);
+						}
+						h
+					};
+					let honest_wire = wire_block(&honest, v);
 					b.body.inputs = t.body.inputs.clone();
 					cases += 3;
 					expect_reject(&mut out, &format!("c01 block same-commitment-twice {} case={} validate_read", form, n), &read_verdict_block(&b), &mut bad);
@@ -760,11 +775,13 @@ fn main() {
 					if honest_wire == "ok" {
 						expect_reject(&mut out, &format!("c01 block same-commitment-twice {} case={} wire-v{}", form, n, v), &wire_block(&b, v), &mut bad);
 					} else {
-						out.raw(&format!("#STAT c01 same-commitment-twice: the block before the change does not pass the untrusted reader at v{} ({}): wire case skipped", v, honest_wire));
+						bad += 1;
+						out.raw(&format!("#ORACLE-FAIL C01 harness: the honest block (real proof of work, AutomatedTesting) does not pass the untrusted reader at v{}: {}", v, honest_wire));
 					}
 				} else {
-					out.raw("#STAT c01 same-commitment-twice: Block::new refused the base transaction");
+					out.raw("#STAT c01 same-commitment-twice: Block::new refused the base transaction (or no proof of work found)");
 				}
+				global::set_local_chain_type(ChainTypes::Mainnet);
 			}
 		}
 		// (2) an extra input whose 33 bytes are NOT a point of the curve, added to a body that balances
